@@ -25,11 +25,14 @@ fn deserialize_env(s: &str) -> Result<HashMap<String, String>, String> {
 }
 
 fn serialize_env(env: &HashMap<String, String>) -> String {
-    let mut s = String::new();
-    for (key, value) in env {
-        s.push_str(&format!("{}={}\n", key, value));
-    }
-    s
+    // One variable per line, in a stable order, without a trailing newline
+    // (a value ending in a newline would print as an empty line)
+    let mut lines = env
+        .iter()
+        .map(|(key, value)| format!("{}={}", key, value))
+        .collect::<Vec<_>>();
+    lines.sort();
+    lines.join("\n")
 }
 
 fn deserialize_version(s: &str) -> Result<debversion::Version, String> {
